@@ -388,7 +388,7 @@ def run_cell_batch(job):
 
 
 def run_matrix(groups, scalars, tier, jobs):
-    workdir = os.path.join(driver.BUILD, 'progmatrix')
+    workdir = os.path.join(driver.BUILD, 'progmatrix_alt' if driver.ALT else 'progmatrix')
     os.makedirs(workdir, exist_ok=True)
     # drop stale caches (other tree hashes)
     tasks = []
